@@ -33,7 +33,6 @@ ASSUME = [
     "substdio buffering is transparent (several read chunkings are run); the position of buffer-full flushes inside the body is observed, not modelled",
     "main() is run from dns_mxip's return value on: control files (helohost me.example, no smtproutes), the resolver, ipme, tcpto's file and connect() are scripted answers; addrmangle is run on plain addresses only",
     "the 1024-byte buffering of smtpto is not modelled: for a failing write inside blast() the driver computes from the bytes of that write (never from the client's flagcritical) whether it was issued after 'flagcritical = 1' (model input: all but at most the 3-byte terminator has then been written) and whether it carries the last byte of the encoded message (oracle: duplicate flag required)",
-    "open finding C09-quit-write-failure (a failing QUIT write replaces a decided K or D by 'Z connection died'): the oracle is strict there; exactly these cases are tagged by the driver and reported as KNOWN-FINDING once the entry is in known_findings.json (VIOLATION until then)",
     "report() is called with the complete output and the wait status of qmail-remote (spawn.c main loop not modelled); in the harness the collected output is followed by '!' NUL and an ASan red zone, so any read past its end is visible",
     "unsigned long is 64 bits (the verdict comparisons are width-independent, Nq.Lemmas.RemoteSmtp)",
 ]
@@ -48,11 +47,6 @@ def case_line(d):
     return "S %s %s %s %s %s %s %s %s %s %s" % (d.get("ip", "c0000219"), d.get("helo", "-"), d.get("sender", "-"), d.get("rcpts", "-"),
                                                 d.get("msg", "-"), d.get("msgerr", "0"), d.get("in", "-"), d.get("chunk", "0"),
                                                 d.get("wk", "0"), d.get("endmode", "0"))
-
-
-def is_known(line):
-    """an ORACLE line that reproduces an open entry of known_findings.json (matched on the tag the driver computes from the case)"""
-    return any(kf.get("match") and kf["match"] in line for kf in nqlib.known_findings(PROP))
 
 
 def mutations(dis, seed, per=300):
@@ -123,21 +117,11 @@ def main():
                 o2 = run_pipeline(["%s - < %s" % (h, tf)], drv)
                 st2, _, _, or2, _ = parse_driver_output(o2)
                 c.cov["search_cases"] = st2.get("cases", 0)
-                or2 = [x for x in or2 if not is_known(x)]
                 return shortest(or2) if or2 else None
         except Exception as ex:
             errors.append(str(ex))
     else:
         errors.append("build failed: " + "\n".join(c.notes)[-3000:])
-    # open known findings: the shortest reproducing case goes through Check.violation (prints KNOWN-FINDING once, suppresses exactly
-    # the tagged cases); every other oracle failure goes to the standard verdict
-    known = [x for x in oracle if is_known(x)]
-    oracle = [x for x in oracle if not is_known(x)]
-    if known:
-        k0 = shortest(known)
-        c.violation("property oracle fails on the implementation's output (listed known finding)",
-                    {"failing_case": kv(k0), "raw": k0[:4000], "stdin_case": case_line(kv(k0)), "cases": len(known)}, found_input=True)
-    c.cov["known_finding_cases"] = len(known)
     c.cov["evaluations"] = int(stats.get("cases", 0))
     c.cov["distinct_nontrivial"] = int(stats.get("distinct_nontrivial", 0))
     c.cov["traces_validated_against_impl"] = max(0, int(stats.get("cases", 0)) - int(stats.get("disagree", 0)))
